@@ -157,7 +157,7 @@ PROPS["C17"] = {
     "theorems": ["Rough.Props.C17.C17_conservation", "Rough.Props.C17.C17_bounded", "Rough.Props.C17.C17_equiv", "Rough.Props.C17.C17_aggregated", "Rough.Props.C17.C17_merge", "Rough.Props.C17.C17_wiring"],
     "streams": [{"args": ["stats"], "shards_quick": 8, "shards_thorough": 16}, {"args": ["srv", "c17"], "shards_quick": 8, "shards_thorough": 16}],
     "ops": ["stats", "rep", "srv"], "trivial": r":rep=0$|^stats:len=0", "min_nontrivial": 500,
-    "rule": "stats cases: histories of the eight recording operations (+clear) on real PerClientStats (hook constructor with limits 0..3) and AggregatedStats over a pool of 3 addresses: bounded-exhaustive to length 4 (quick) / 5 (thorough), random to length 10000; splits across 1..4 recorders with snapshot points pushed through a real StatsQueue into Reporter::receive_client_stats. srv cases: traffic mixes through the in-process server, recorded totals vs datagrams actually received/sent",
+    "rule": "stats cases: histories of the eight recording operations (+clear) on real PerClientStats (hook constructor with limits 0..3) and AggregatedStats over a pool of 3 addresses: bounded-exhaustive to length 4 (quick) / 5 (thorough), random to length 10000; splits across 1..4 recorders with snapshot points pushed through a real StatsQueue into Reporter::receive_client_stats. srv cases: traffic mixes through the in-process server, recorded totals vs datagrams actually received/sent; c17-timer scenarios run with status_interval 1 s so the worker's status timer publishes per-client snapshots through the real StatsQueue and clears the recorder between bursts: recorder + published snapshots must equal the traffic",
     "trusted_base": ["hooks: PerClientStats::with_limit_verif, Server::stats_verif (cfg roughenough_verif, add-only)", "crossbeam ArrayQueue with capacity >= number of snapshots (force_push never evicts)"],
     "assumptions": ["counters are modelled as Nat (Rust u32/u64/usize: no overflow below 2^32 events per interval)", "first_seen timestamps are not compared"],
     "design_ref": "5/C17",
